@@ -1,16 +1,23 @@
 """C03 — A successfully loaded module is structurally well-formed.
 
 proof   : XmpProps.C03 over XmpModel.LoadPost (`finish` = gate ∘ adjust ∘ epilogue ∘ prepareScan ∘
-          scanSequences, scan_module abstract) for ARBITRARY raw modules; helpers' row ranges;
-          Gen/Limits + Gen/AllocSites regenerated from /repo (translator)
+          scanSequences, scan_module abstract) for ARBITRARY raw modules: WFCommon, and WF under the
+          named loader obligations LoaderOblig; header-count models of the four core loaders
+          (LoadPostHdr); player-side guards (LoadPostPlayer); helpers' row ranges;
+          Gen/Limits, Gen/AllocSites, Gen/C03Hdr, Gen/C03Guards regenerated from /repo (translators)
 tie     : (b) raw-module injector harness/c03_inject.c: the REAL load_module runs on synthetic raw
           modules; return code + canonical dump compared with the model's `finish`
-search  : (a) harness/c03_wf.c: corpus + structure-aware mutants through the real loaders; the Lean
-          driver evaluates the decidable predicate WF (the one the theorems are about) on every dump
+          (b') harness/c03_wf.c observes the RAW module of every real load inside load_module; the
+          model's `finishV` on it is compared with the loaded module
+          (c) header files (tools/c03_hdrfiles.py) through ONE real loader vs the header models
+search  : (a) harness/c03_wf.c: corpus + mutants + synthetic modules through the real loaders; the Lean
+          driver evaluates LoaderOblig on the raw module and WF on the loaded module
 """
 import hashlib
 import json
 import os
+import random
+import shutil
 import subprocess
 import sys
 
@@ -18,41 +25,64 @@ sys.path.insert(0, os.path.dirname(os.path.dirname(os.path.abspath(__file__))))
 import vlib  # noqa: E402
 import gen_limits  # noqa: E402
 import gen_alloc_sites  # noqa: E402
+import c03_gen_hdr  # noqa: E402
+import c03_gen_guards  # noqa: E402
+import synthmods  # noqa: E402  (read-only: owned by C01)
 
 LEVEL = "proof"
 MANIFEST = dict(
     category="proof",
-    text="Partial proof. Lean 4 theorems (XmpProps.C03: C03_finish_wf, C03_sequences, C03_sequences_own, C03_scan_loop_fuel, "
-         "C03_finish_rc, C03_names, C03_nonneg, C03_helpers_*) prove for ARBITRARY raw modules left behind by a format loader that whenever the common post-load path of "
-         "load_module (sanity gate, libxmp_adjust_string, libxmp_load_epilogue, libxmp_prepare_scan, libxmp_scan_sequences with "
-         "scan_module abstract) succeeds, the module satisfies the clauses of C03 that this path is responsible for (counts within "
-         "limits, every pattern present with valid present tracks, rst/spd/bpm ranges, envelope upper bounds and volume-envelope "
-         "clamp, a sample with data and the LOOP flag has 0 <= lps < lpe <= len, sustain-loop clause, names terminated/printable, non-empty order list holds a valid pattern, 1..255 sequences with "
-         "distinct entry points inside the order list, durations >= 0, sequence_control[ord] = 0xff or < num_sequences). The model is "
-         "tied to the C on every run by a raw-module injector (real load_module vs model: return code and full dump) and by "
-         "regenerated limits / allocation-site lists. The per-loader clauses (rows >= 1, sub-instruments allocated, sample loops and "
-         "guard frames / loop bounds of unflagged loops, envelope lower bounds, restart >= 0) are checked, not proved: the same decidable Lean predicate WF is "
-         "evaluated on dumps of corpus files and structure-aware mutants loaded by the real library.",
-    note="Trusted: Lean kernel; the hand-written model XmpModel/LoadPost.lean; the harnesses, translators and differ. scan_module is "
-         "abstract (any marks, any time): only its marking rule and the bookkeeping of libxmp_scan_sequences are modelled; "
-         "compare_vblank_scan is not exercised by the injector. Modelled-not-verified: the ~110 format loaders and libxmp_load_sample "
-         "(C20); their clauses are covered by evaluation of WF on real loads only (corpus + mutants), so a loader that builds an "
-         "inconsistent module the gate cannot see on an input outside the explored set is missed. Raw-module preconditions not "
-         "checked by the C (tables at least as long as their counts, xxt != NULL when a pattern is checked, sub != NULL when nsm > 0 "
-         "without QUIRK_INSVOL, restart >= 0, names terminated) are assumptions of the correspondence generator.",
-    technique="Lean 4 proof over an executable model of the post-load path + differential correspondence (raw-module injector) + "
-              "evaluation of the same decidable predicate on real loads",
+    text="Lean 4 theorems (XmpProps.C03) over an executable model of the post-load path of load_module (sanity gate, "
+         "libxmp_adjust_string, libxmp_load_epilogue, libxmp_prepare_scan, libxmp_scan_sequences incl. compare_vblank_scan; "
+         "scan_module abstract) prove for ARBITRARY raw modules left behind by a format loader: (1) C03_finish_wf - whenever the "
+         "path succeeds the module satisfies every clause this path is responsible for (counts within limits, every pattern "
+         "present with valid present tracks, rst/spd/bpm ranges, envelope upper bounds and volume-envelope clamp, every sample "
+         "with data and a non-negative length has 0 <= lps <= lpe <= len, strictly ordered if looped, sustain-loop clause, "
+         "non-empty order list holds a valid pattern, 1..255 sequences with distinct entry points inside the order list, "
+         "durations >= 0, sequence_control[ord] = 0xff or < num_sequences); (2) C03_finish_full - together with the named "
+         "decidable loader obligations LoaderOblig (rows >= 1, sub-instrument arrays allocated, samples with data have len >= 0 "
+         "and readable guard frames, envelope loop/sustain points that survive check_envelope are not negative, names "
+         "NUL-terminated, restart >= 0) EVERY clause of the statement (WF) holds; C03_oblig_necessary - each obligation except "
+         "names is also necessary, so an obligation failure is a property failure; (3) C03_hdr_mod/s3m/xm/it/rows + "
+         "C03_count_oblig - for EVERY header the four core loaders accept, the counts they write pass the gate and need no "
+         "clamp, pattern rows lie in 1..256 (IT 1..1024); (4) C03_player_sub/sample/trusted - the player's guards "
+         "(get_subinstrument, IS_VALID_INSTRUMENT/NOTE/SAMPLE) render any event instrument/key, key map entry and sample id "
+         "harmless; the unguarded sub->sid uses are pinned by a generated site list. The check evaluates LoaderOblig on the RAW "
+         "module (observed inside load_module between the loader's return and the first modification) of every real load of "
+         "corpus files, mutants, synthetic modules and header-probing files, and WF on the loaded module; a loader breaking an "
+         "obligation is reported as a VIOLATION with the file as replay.",
+    note="Trusted: Lean kernel; the hand-written models XmpModel/LoadPost.lean, LoadPostHdr.lean, LoadPostPlayer.lean; the "
+         "harnesses, translators and differ. Ties (every run): raw-module injector (real load_module vs finish: return code and "
+         "full dump, 10^4 synthetic raw modules, plus C03_finish_full / C03_oblig_necessary instances against the real code); "
+         "finishV vs the real load_module on the raw module of every REAL load (scan_module spied); header models vs the four "
+         "real loaders on boundary-probing files (accept/refuse, counts, pattern rows); limits, header limits, allocation sites, "
+         "guard macro texts / get_subinstrument shape / sub->sid use sites regenerated from /repo. scan_module is abstract (any "
+         "marks, any time). Modelled-not-verified: the bodies of the ~110 format loaders and libxmp_load_sample (C20): their "
+         "obligations are covered by evaluation of LoaderOblig / WF on real loads only, so a loader breaking an obligation on an "
+         "input outside the explored set is missed; of the four core loaders only the header-count logic is modelled (XM sample "
+         "count and MOD's Mod's-Grave/tracker-id inputs are parameters). The extra obligation sidsOK behind the player's "
+         "unguarded sub->sid uses is evaluated and reported as a note, not as a violation (it is not part of C03's statement). "
+         "Raw-module preconditions not checked by the C (tables at least as long as their counts, xxt != NULL when a pattern is "
+         "checked, sub != NULL when nsm > 0 without QUIRK_INSVOL) are assumptions of the injector's generator.",
+    technique="Lean 4 proof over executable models of the post-load path, the core loaders' header validation and the player's "
+              "reference guards + differential correspondence (raw-module injector, real-load raw modules, header files) + "
+              "evaluation of the same decidable predicates on real loads",
     design_ref="DESIGN.md section 4 C03",
 )
 
 REQUIRED = ["Xmp.LoadPost.C03_finish_wf", "Xmp.LoadPost.C03_sequences", "Xmp.LoadPost.C03_sequences_own",
             "Xmp.LoadPost.C03_scan_loop_fuel", "Xmp.LoadPost.C03_finish_rc",
-            "Xmp.LoadPost.C03_names", "Xmp.LoadPost.C03_nonneg", "Xmp.LoadPost.C03_helpers_track",
+            "Xmp.LoadPost.C03_names", "Xmp.LoadPost.C03_nonneg", "Xmp.LoadPost.C03_finish_full",
+            "Xmp.LoadPost.C03_oblig_necessary", "Xmp.LoadPost.C03_finish_full_vblank", "Xmp.LoadPost.C03_vblank_first",
+            "Xmp.LoadPost.C03_hdr_mod", "Xmp.LoadPost.C03_hdr_s3m", "Xmp.LoadPost.C03_hdr_xm", "Xmp.LoadPost.C03_hdr_it",
+            "Xmp.LoadPost.C03_hdr_rows", "Xmp.LoadPost.C03_count_oblig", "Xmp.LoadPost.Hdr.hdrLimits_sane",
+            "Xmp.LoadPost.Hdr.modMagic_sane", "Xmp.LoadPost.C03_player_sub", "Xmp.LoadPost.C03_player_sample",
+            "Xmp.LoadPost.C03_player_trusted", "Xmp.LoadPost.Player.guards_present", "Xmp.LoadPost.Player.sidSites_known", "Xmp.LoadPost.C03_helpers_track",
             "Xmp.LoadPost.C03_helpers_pattern", "Xmp.LoadPost.allocSites_known", "Xmp.LoadPost.limits_sane"]
 
 # clauses of WF that the common path guarantees for arbitrary raw modules (WFCommon)
 COMMON_CLAUSES = {"counts", "patterns", "spd", "bpm", "sequences", "sequence_control", "channels", "orders",
-                  "sustain", "envelopes_upper", "rst_upper", "sample_loops"}
+                  "sustain", "envelopes_upper", "rst_upper", "sample_loops", "sample_ranges"}
 
 WORK = os.path.join(vlib.OUT, "c03")
 INT_MAX = 2 ** 31 - 1
@@ -218,6 +248,9 @@ def gen_case(r, cid):
             nsub = max(nsm, 0) + r.choice([0, 0, 1])
             gv = [r.randint(0, 0x40) for _ in range(nsub)]
         L.append("i %d %s %d %d %d%s" % (i, hexs(gen_name(r, 32)), r.randint(-1, 0x41), nsm, nsub, "".join(" %d" % g for g in gv)))
+        sids = [pick(r, lambda: r.randint(0, max(0, min(smp, 8) - 1)), [-1, 0, smp - 1, smp, smp + 1, 255, INT_MAX, INT_MIN], ph * 0.5)
+                for _ in range(max(nsub, 0))]
+        L.append("u %d %d%s" % (i, max(nsub, 0), "".join(" %d" % x for x in sids)))
         for e in range(3):
             L.append("e 0 0 0 0 0 0 0" if light and r.random() < 0.8 else gen_env(r, hostile))
     ns = max(0, smp) if smp <= 2000 else 0
@@ -307,13 +340,44 @@ def inject_worker(job):
                     f.write("\n".join(l for l in lines[1:] if not l.startswith("trace")) + "\nend\n")
         with open(wfin_p) as fin, open(wfout_p, "w") as out:
             run_cmd([job["driver"]], stdin=fin, stdout=out)
+        # LoaderOblig of every raw description (first line of the model's block)
+        oblig = {}
+        for cid, mo in model.items():
+            for l in mo:
+                if l.startswith("oblig "):
+                    f = l.split(" ")
+                    oblig[cid] = [] if f[1] == "ok" else f[2].split(",")
+        real_wf = {}
         for line in open(wfout_p):
             f = line.split(" ")
+            if f[0] == "wf":
+                cid = line.split("id=")[1].split()[0]
+                real_wf[cid] = [] if f[1] == "ok" else f[2].split(",")
             if f[0] == "wf" and f[1] == "FAIL":
                 bad = sorted(set(f[2].split(",")) & COMMON_CLAUSES)
                 if bad:
                     cid = line.split("id=")[1].split()[0]
                     res["wf_fail"].append({"id": cid, "clauses": bad, "case": texts[cid]})
+        # C03_finish_full / C03_oblig_necessary against the REAL load_module: obligations met and rc 0 => every
+        # clause of WF holds on the real dump; an obligation (other than names) broken and rc 0 => WF fails
+        res["full_ok"] = 0
+        res["necessary_ok"] = 0
+        res["full_bad"] = []
+        for cid, bad_wf in real_wf.items():
+            ob = oblig.get(cid)
+            if ob is None:
+                continue
+            if not ob:
+                if bad_wf:
+                    if not (set(bad_wf) & COMMON_CLAUSES):
+                        res["full_bad"].append({"id": cid, "kind": "full", "clauses": bad_wf, "case": texts[cid]})
+                else:
+                    res["full_ok"] += 1
+            elif set(ob) - {"names"}:
+                if bad_wf:
+                    res["necessary_ok"] += 1
+                else:
+                    res["full_bad"].append({"id": cid, "kind": "necessary", "clauses": ob, "case": texts[cid]})
     st = res["stats"]
 
     def bump(k, n=1):
@@ -344,9 +408,12 @@ def inject_worker(job):
             if mo is None:
                 res["mismatch"].append({"id": cid, "detail": "no model output", "case": texts[cid]})
                 continue
-            mo_cmp = [l for l in mo if not l.startswith("wfc ")]
+            mo_cmp = [l for l in mo if not l.startswith(("wfc ", "wff ", "oblig "))]
             if [l for l in mo if l.startswith("wfc ")] not in ([], ["wfc 1"]):
                 res["mismatch"].append({"id": cid, "detail": "WFCommon false on the model's own output", "case": texts[cid]})
+            if [l for l in mo if l.startswith("oblig ")] == ["oblig ok -"] and "wff 0" in mo:
+                res["mismatch"].append({"id": cid, "detail": "LoaderOblig true but WF false on the model's own output "
+                                                             "(contradicts C03_finish_full)", "case": texts[cid]})
             if mo_cmp != lines:
                 k = 0
                 while k < min(len(mo_cmp), len(lines)) and mo_cmp[k] == lines[k]:
@@ -372,14 +439,33 @@ def inject_worker(job):
 
 
 def wf_worker(job):
-    base = os.path.join(job["work"], "wf-%d" % job["shard"])
+    base = os.path.join(job["work"], "%s-%d" % (job["kind"], job["shard"]))
     out_p, drv_p = base + ".dump", base + ".wf"
     tmpd = base + ".tmp"
     os.makedirs(tmpd, exist_ok=True)
     res = {"loads": 0, "rc": {}, "ok_loads": 0, "evaluated": 0, "fail": [], "abort": None, "kinds": {}, "what": {},
-           "files_ok": 0, "files": len(job["files"]), "keys": [], "publicview": 0}
+           "files_ok": 0, "files": len(job.get("files", [])), "keys": [], "publicview": 0,
+           "oblig_evaluated": 0, "oblig_ok_loads": 0, "oblig_fail": [], "fin_ok": 0, "fin_bad": [],
+           "sids": {}, "sids_fmt": {}, "sid_samples": []}
+    hdr_lines = {}
+    if job["kind"] == "hdr":
+        # header tie: generated files of ONE core format, loaded through that one real loader
+        import c03_hdrfiles
+        r = random.Random(job["seed"])
+        os.makedirs(job["hdr_dir"], exist_ok=True)
+        job["files"] = []
+        for k in range(job["n"]):
+            data, hl = c03_hdrfiles.GENS[job["fmt"]](r)
+            fp = os.path.join(job["hdr_dir"], "hdr-%s-%05d.%s" % (job["fmt"], k, job["fmt"]))
+            open(fp, "wb").write(data)
+            job["files"].append(fp)
+            hdr_lines[fp] = hl
+        res["files"] = len(job["files"])
+        cmd = [job["harness"], "hdr", job["fmt"], tmpd] + job["files"]
+    else:
+        cmd = [job["harness"], "run", str(job["seed"]), str(job["nmut"]), tmpd] + job["files"]
     with open(out_p, "w") as out:
-        rc, err = run_cmd([job["harness"], "run", str(job["seed"]), str(job["nmut"]), tmpd] + job["files"], stdout=out)
+        rc, err = run_cmd(cmd, stdout=out)
     last_load = ""
     okfiles = set()
     for line in open(out_p, errors="replace"):
@@ -405,17 +491,47 @@ def wf_worker(job):
             run_cmd([job["driver"]], stdin=fin, stdout=out)
         for line in open(drv_p, errors="replace"):
             f = line.rstrip("\n").split(" ")
-            if f[0] != "wf":
+            if f[0] not in ("wf", "oblig", "fin", "sids"):
                 continue
-            res["evaluated"] += 1
             tag = dict(x.split("=", 1) for x in line.rstrip("\n").split(" | ", 1)[1].split(" ")[2:] if "=" in x)
             for k in ("file", "other"):
                 if k in tag:
                     tag[k] = tag[k].replace("%20", " ").replace("%25", "%")
+            if f[0] == "oblig":
+                # LoaderOblig on the raw module of a real load
+                res["oblig_evaluated"] += 1
+                if tag.get("rc") == "0":
+                    res["oblig_ok_loads"] += 1
+                if f[1] == "FAIL" and tag.get("rc") == "0":
+                    res["oblig_fail"].append({"clauses": f[2].split(","), "tag": tag})
+                continue
+            if f[0] == "sids":
+                # Player.sidsOK on the raw module (informational: what the unguarded sub->sid uses rely on)
+                if tag.get("rc") == "0":
+                    k = "ok" if f[1] == "ok" else "out_of_range"
+                    if f[1] != "ok" and int(f[2]) & job.get("quirk_trusted", 0):
+                        k = "out_of_range_with_ft2bugs_or_protrack_quirk"
+                        if len(res["sid_samples"]) < 3:
+                            res["sid_samples"].append(tag)
+                    res["sids"][k] = res["sids"].get(k, 0) + 1
+                    if f[1] != "ok":
+                        fm = tag.get("fmt", "?")
+                        res["sids_fmt"][fm] = res["sids_fmt"].get(fm, 0) + 1
+                continue
+            if f[0] == "fin":
+                # model finishV on the raw module vs what the real load_module made of it
+                if f[1] == "ok":
+                    res["fin_ok"] += 1
+                else:
+                    res["fin_bad"].append({"detail": line.split(" | ", 1)[0][:600], "tag": tag})
+                continue
+            res["evaluated"] += 1
             w = tag.get("what", "?").split(":")[0]
             res["what"][w] = res["what"].get(w, 0) + 1
             if f[1] == "FAIL":
                 res["fail"].append({"clauses": f[2].split(","), "tag": tag})
+    if job["kind"] == "hdr" and job["driver"]:
+        hdr_compare(job, out_p, hdr_lines, res)
     for p in (out_p, drv_p):
         if not job.get("keep"):
             try:
@@ -427,6 +543,66 @@ def wf_worker(job):
     except OSError:
         pass
     return res
+
+
+def hdr_compare(job, out_p, hdr_lines, res):
+    """Hdr.<fmt>Header (Lean) vs the real loader: refuse / accept, the counts the loader left in the raw
+    module, the row count of every pattern."""
+    fmt = job["fmt"]
+    real, last, cur = {}, None, None
+    for l in open(out_p, errors="replace"):
+        l = l.rstrip("\n")
+        if l.startswith("load rc="):
+            f = dict(x.split("=", 1) for x in l.split()[1:])
+            last = f["file"].replace("%20", " ").replace("%25", "%")
+            real[last] = {"rc": int(f["rc"]), "mod": None, "rows": []}
+        elif l.startswith("begin rawload"):
+            cur = last
+        elif l == "end":
+            cur = None
+        elif cur and l.startswith("mod "):
+            real[cur]["mod"] = l.split()
+        elif cur and l.startswith("p "):
+            real[cur]["rows"].append(l.split()[3])
+    inp = "".join("begin hdr id=%d\n%s\nend\n" % (k, hdr_lines[fp]) for k, fp in enumerate(job["files"]))
+    p = subprocess.run([job["driver"]], input=inp.encode(), stdout=subprocess.PIPE, stderr=subprocess.PIPE, timeout=3000)
+    model = {}
+    for l in p.stdout.decode().splitlines():
+        if l.startswith("hdr "):
+            a, t = l.split(" | ", 1)
+            model[int(t.split("id=")[1].split()[0])] = a.split()[1:]
+    st = res.setdefault("hdr", {"accept": 0, "reject": 0, "bad": [], "boundary": {}})
+    for k, fp in enumerate(job["files"]):
+        rl, m = real.get(fp), model.get(k)
+        detail = None
+        if rl is None and res.get("abort"):
+            continue                # the harness aborted before this file (reported as a violation of its own)
+        if m is None or rl is None or m[0] == "?":
+            detail = "no answer (model %r, real %r)" % (m, rl)
+        elif m[0] == "none":
+            # the loader is alone in the table: a refused header never reaches the gate
+            if rl["mod"] is not None:
+                detail = "model refuses, the real loader accepted with counts %s" % " ".join(rl["mod"][1:10])
+            else:
+                st["reject"] += 1
+        elif rl["mod"] is None:
+            detail = "model accepts (%s), the real load ended with rc %d before the sanity gate passed" % (" ".join(m[1:8]), rl["rc"])
+        else:
+            rm = rl["mod"]          # mod pat trk chn ins smp spd bpm len rst …
+            realc = [rm[3], rm[1], rm[2], rm[4], rm[5], rm[8], rm[9]]
+            mc = m[1:8]
+            if fmt == "xm":
+                realc[4] = mc[4] = "-"      # samples are counted by load_instruments, not a header field
+            if realc != mc:
+                detail = "counts chn pat trk ins smp len rst: real %s model %s" % (" ".join(realc), " ".join(mc))
+            elif rl["rows"] != m[9:]:
+                detail = "pattern rows: real %s model %s" % (" ".join(rl["rows"][:40]), " ".join(m[9:49]))
+            else:
+                st["accept"] += 1
+        if detail:
+            st["bad"].append({"file": fp, "fmt": fmt, "hdr": hdr_lines[fp][:400], "detail": detail,
+                              "bytes_hex": open(fp, "rb").read()[:200000].hex()})
+        res["keys"].append((hashlib.sha256(hdr_lines[fp].encode()).hexdigest()[:16], bool(m and m[0] == "ok")))
 
 
 def run_jobs(jobs):
@@ -503,10 +679,17 @@ def emit_bytes(wf_exe, tag):
 def run(ck):
     lim = gen_limits.generate()
     sites = gen_alloc_sites.generate()
+    hl = c03_gen_hdr.generate()
+    gd = c03_gen_guards.generate()
+    ck.note("player_sid_sites", ["%s:%s:%s" % t for t in gd["sites"]])
     ck.note("limits_stale_epilogue_literals", lim["stale"])
+    ck.note("header_limits_stale", hl["stale"])
     ck.note("alloc_sites_direct", ["%s:%s:%s" % s for s in sites["direct"]])
     ck.proofs(["XmpProps.C03"], required=REQUIRED, drivers=["drv_c03"])
-    driver = vlib.lean_driver("drv_c03") if getattr(ck, "lean_ok", False) and os.path.exists(vlib.lean_driver("drv_c03")) else None
+    # a broken THEOREM (e.g. a regenerated limit that no longer supports hdrLimits_sane) is reported as unproved; the
+    # models still compile, so the driver is built on its own and the oracles keep producing replayable inputs
+    lean_ok = getattr(ck, "lean_ok", False) or vlib.lean_build(["drv_c03"])[0]
+    driver = vlib.lean_driver("drv_c03") if lean_ok and os.path.exists(vlib.lean_driver("drv_c03")) else None
     inj, wf = harnesses()
     quick = ck.tier == "quick"
     nsh = min(16, vlib.NCPU)
@@ -522,11 +705,41 @@ def run(ck):
     cdir = os.path.join(vlib.VERIF, "corpus", "C03")
     if os.path.isdir(cdir):
         files = sorted(os.path.join(cdir, f) for f in os.listdir(cdir)) + files
+    # structure-aware synthetic modules of the four core formats (+ DBM / compressed IT / MMD)
+    syn_dir = os.path.join(WORK, "syn-%d" % os.getpid())
+    syn = synthmods.write_set(random.Random(ck.seed * 7919 + 303), syn_dir, 96 if quick else 960)
+    syn += synthmods.write_set_extra(random.Random(ck.seed * 104729 + 303), syn_dir, 36 if quick else 360, prefix="syx")
+    files = files + syn
+    ck.note("synthetic_modules", len(syn))
     nmut = 3 if quick else 40
+    qmask = lim["values"].get("QUIRK_FT2BUGS", 0) | lim["values"].get("QUIRK_PROTRACK", 0)
     wjobs = [{"kind": "wf", "shard": i, "seed": ck.seed, "nmut": nmut, "harness": wf, "driver": driver,
-              "files": files[i::nsh]} for i in range(nsh)]
-    results = run_jobs(jobs + wjobs)
-    rin, rwf = results[:len(jobs)], results[len(jobs):]
+              "files": files[i::nsh], "quirk_trusted": qmask} for i in range(nsh)]
+    # ---- (c) header tie: Hdr.modHeader / s3mHeader / xmHeader / itHeader vs the four real loaders ----
+    hdr_dir = os.path.join(WORK, "hdr-%d" % os.getpid())
+    nh = 160 if quick else 4000
+    hjobs = [{"kind": "hdr", "shard": i, "seed": ck.seed * 7919 + 17 * i + 1, "n": nh, "fmt": fmt, "harness": wf,
+              "driver": driver, "hdr_dir": hdr_dir, "nmut": 0}
+             for i, fmt in enumerate(("mod", "s3m", "xm", "it"))]
+    results = run_jobs(jobs + wjobs + hjobs)
+    rin, rwf, rhdr = results[:len(jobs)], results[len(jobs):len(jobs) + len(wjobs)], results[len(jobs) + len(wjobs):]
+    hstat = {}
+    for job, r in zip(hjobs, rhdr):
+        h = r.get("hdr", {"accept": 0, "reject": 0, "bad": []})
+        hstat[job["fmt"]] = {"accepted_both": h["accept"], "refused_both": h["reject"], "disagree": len(h["bad"])}
+        ck.cov["traces_validated_against_impl"] += h["accept"] + h["reject"]
+        prop_fail = set(f["tag"].get("file") for f in r["fail"]) | set(f["tag"].get("file") for f in r["oblig_fail"])
+        for b in h["bad"]:
+            if b["file"] in prop_fail:
+                continue
+            ck.unproved("correspondence Hdr.%sHeader vs %s_load" % (job["fmt"], job["fmt"]),
+                        "%s\nheader: %s\nreplay: write the bytes (bytes_hex, first %d) to F and run `c03_wf hdr %s /tmp F`\n%s" % (
+                            b["detail"], b["hdr"], len(b["bytes_hex"]) // 2, job["fmt"], b["bytes_hex"][:4000]))
+        if driver and h["accept"] == 0:
+            ck.unproved("header tie", "no %s header was accepted by both the model and the real loader" % job["fmt"])
+    ck.note("header_tie", hstat)
+    rwf = rwf + rhdr          # the loads of the header files feed the oracles like every other real load
+    wjobs = wjobs + hjobs
 
     agg, rcs = {}, {}
     n_corr_ok = 0
@@ -552,21 +765,43 @@ def run(ck):
                          "module accepted by the real load_module violates clause(s) %s of the common post-load "
                          "guarantees" % ",".join(w["clauses"]))
         bad_ids = set()
-        for mm in r["mismatch"]:
+        for k_mm, mm in enumerate(r["mismatch"]):
             bad_ids.add(mm["id"])
-            if mm["id"] in wf_ids:
+            if mm["id"] in wf_ids or k_mm >= 4:          # at most 4 reports per shard (the count is in the evidence)
                 continue
             ck.unproved("correspondence LoadPost.finish vs load_module",
                         "case %s: %s\nreplay: write the block to a file F and run `c03_inject F /dev/stdout`\n%s" % (
                             mm["id"], mm["detail"], mm["case"][:6000]))
+        for fb in r.get("full_bad", []):
+            if fb["id"] in wf_ids:
+                continue
+            if fb["kind"] == "full":
+                ck.violation("wf-oblig:" + fb["clauses"][0], {"kind": "raw", "case": fb["case"], "clauses": fb["clauses"]},
+                             "raw module meeting every loader obligation (LoaderOblig) is accepted by the real load_module "
+                             "but the result violates clause(s) %s of C03 (C03_finish_full fails on the real code)"
+                             % ",".join(fb["clauses"]))
+            else:
+                ck.unproved("correspondence C03_oblig_necessary vs load_module",
+                            "case %s: obligation(s) %s broken, real load returns 0 and WF holds on the real dump\n%s" % (
+                                fb["id"], ",".join(fb["clauses"]), fb["case"][:6000]))
+        agg["full_theorem_instances"] = agg.get("full_theorem_instances", 0) + r.get("full_ok", 0)
+        agg["necessity_instances"] = agg.get("necessity_instances", 0) + r.get("necessary_ok", 0)
+        agg["injector_mismatches"] = agg.get("injector_mismatches", 0) + len(bad_ids)
         n_corr_ok += r["cases"] - len(bad_ids) if driver else 0
     ck.cov["traces_validated_against_impl"] += n_corr_ok
     ck.note("inject_rc", rcs)
     ck.note("inject_branches", agg)
 
-    wstat = {"loads": 0, "ok_loads": 0, "evaluated": 0, "files": 0, "files_ok": 0, "publicview": 0}
+    wstat = {"loads": 0, "ok_loads": 0, "evaluated": 0, "files": 0, "files_ok": 0, "publicview": 0,
+             "oblig_evaluated": 0, "oblig_ok_loads": 0, "fin_ok": 0}
     wrc, wkinds, wwhat = {}, {}, {}
+    sid_stat, sid_fmt = {}, {}
     for job, r in zip(wjobs, rwf):
+        for d, sdict in ((sid_stat, r["sids"]), (sid_fmt, r["sids_fmt"])):
+            for k, v in sdict.items():
+                d[k] = d.get(k, 0) + v
+        for t in r["sid_samples"]:
+            ck.sample({"sid_out_of_range_under_trusting_quirk": t}, limit=6)
         for k in wstat:
             wstat[k] += r[k]
         for d, s in ((wrc, r["rc"]), (wkinds, r["kinds"]), (wwhat, r["what"])):
@@ -577,7 +812,7 @@ def run(ck):
         if r["abort"]:
             a = r["abort"]
             ck.violation("wf-abort:" + a["sig"], {"kind": "abort", "last_load": a["last_load"], "stderr": a["stderr"],
-                                                  "cmd": ["c03_wf", "run", str(job["seed"]), str(job["nmut"]), "<tmp>"] + job["files"]},
+                                                  "cmd": ["c03_wf", "run" if job["kind"] == "wf" else "hdr", str(job["seed"]), str(job["nmut"]), "<tmp>"] + job.get("files", [])},
                          "the C03 oracle harness aborted (rc=%d) after `%s`: %s" % (a["rc"], a["last_load"], a["sig"]))
         for f in r["fail"]:
             t = f["tag"]
@@ -586,25 +821,53 @@ def run(ck):
                          "%s (format %s, mutant seed %s, smpctl %s, via %s, %s) loads with rc 0 but violates clause(s) %s of C03" % (
                              t.get("file"), t.get("fmt"), t.get("mutseed"), t.get("smpctl"), t.get("via"), t.get("what"),
                              ",".join(f["clauses"])))
+        failed_tags = set(json.dumps(f["tag"], sort_keys=True) for f in r["fail"])
+        for f in r["oblig_fail"]:
+            t = f["tag"]
+            ck.violation("oblig:%s:%s" % (f["clauses"][0], t.get("fmt", "?")),
+                         {"kind": "file", "tag": dict(t, what="load"), "clauses": f["clauses"], "bytes_hex": emit_bytes(wf, t)},
+                         "%s (format %s, mutant seed %s, smpctl %s, via %s) loads with rc 0 although its format loader "
+                         "left a module that breaks loader obligation(s) %s (LoaderOblig on the raw module; by "
+                         "C03_oblig_necessary the loaded module violates C03)" % (
+                             t.get("file"), t.get("fmt"), t.get("mutseed"), t.get("smpctl"), t.get("via"),
+                             ",".join(f["clauses"])))
+        for f in r["fin_bad"]:
+            t = dict(f["tag"], what="load")
+            if json.dumps(t, sort_keys=True) in failed_tags:
+                continue                    # the property itself fails on that load: reported above
+            ck.unproved("correspondence LoadPost.finishV vs load_module on a real loader's output",
+                        "%s\nfile %s mutant seed %s smpctl %s via %s other %s\nreplay: c03_wf one <file> <mutseed> <smpctl> "
+                        "<via> <tmpdir> [<other>] | drv_c03" % (f["detail"], t.get("file"), t.get("mutseed"),
+                                                                  t.get("smpctl"), t.get("via"), t.get("other")))
+        ck.cov["traces_validated_against_impl"] += r["fin_ok"]
         if r["publicview"]:
             ck.unproved("public view", "xmp_get_module_info does not expose the tables the harness dumps")
+    ck.note("player_sidsOK_on_raw_modules", sid_stat)
+    ck.note("player_sid_out_of_range_by_format", sid_fmt)
     ck.note("wf_loads", wstat)
     ck.note("wf_rc", wrc)
     ck.note("wf_mutant_kinds", wkinds)
     ck.note("wf_evaluated_by_observation_point", wwhat)
     if driver and wstat["evaluated"] == 0:
         ck.unproved("oracle", "no successful load was evaluated")
+    if driver and wstat["oblig_ok_loads"] != wstat["ok_loads"]:
+        ck.unproved("oracle", "LoaderOblig was evaluated on the raw module of %d of %d successful loads (the raw-module "
+                              "observation point inside load_module was missed)" % (wstat["oblig_ok_loads"], wstat["ok_loads"]))
     ck.sample({"oracle": "WF evaluated on %d dumps of %d successful loads (%d attempts over %d files)" % (
         wstat["evaluated"], wstat["ok_loads"], wstat["loads"], wstat["files"])}, limit=4)
+    shutil.rmtree(syn_dir, ignore_errors=True)
+    shutil.rmtree(hdr_dir, ignore_errors=True)
     ck.cov["rule"] = ("inject: raw module descriptions generated from VERIF_SEED (every field independently valid/boundary/hostile); "
                       "distinct by hash of the description; non-trivial = the load succeeds AND (a count/limit was clamped OR more "
                       "than one sequence OR a discarded scan). wf: (file, mutant seed, smpctl, entry point) loads returning 0; "
                       "non-trivial = mutants only (intact corpus files are the baseline)")
     ck.assumptions += [
-        "raw modules satisfy the loaders' allocation contract: tables at least as long as their counts, xxt != NULL when the gate "
-        "inspects a pattern, sub != NULL when nsm > 0 without QUIRK_INSVOL, restart >= 0, names NUL-terminated",
+        "injected raw modules satisfy the loaders' allocation contract: tables at least as long as their counts, xxt != NULL when "
+        "the gate inspects a pattern, sub != NULL when nsm > 0 without QUIRK_INSVOL, restart >= 0, names NUL-terminated",
         "scan_module is abstract in the model; its marks and return values are taken from a spy on the real scan_module",
-        "compare_vblank_scan is not exercised by the injector (compare_vblank = 0)",
+        "compare_vblank_scan is exercised through real Protracker loads only (the injector keeps compare_vblank = 0)",
+        "header tie: the generated files are valid apart from their header counts; XM sample count, MOD Mod's-Grave and "
+        "tracker-identification inputs are parameters of the header models",
     ]
 
 
@@ -651,7 +914,7 @@ def replay(ck, rp):
         if os.path.exists(drv):
             for l in vlib.run_driver("drv_c03", out.decode("latin-1")):
                 print(l[:300])
-                bad = bad or l.startswith("wf FAIL")
+                bad = bad or l.startswith(("wf FAIL", "oblig FAIL"))
         if bad:
             print("VIOLATION property=C03 replay=%s" % t["file"])
         return 1 if bad else 0
@@ -662,5 +925,5 @@ def replay(ck, rp):
 
 if __name__ == "__main__":
     job = json.load(open(sys.argv[1]))
-    res = inject_worker(job) if job["kind"] == "inject" else wf_worker(job)
+    res = inject_worker(job) if job["kind"] == "inject" else wf_worker(job)     # kinds wf and hdr
     sys.stdout.write(json.dumps(res))
